@@ -149,6 +149,26 @@ def tlc(module, cfg=None, env=None, workers=1, timeout=900, extra=(), metadir=No
     return {"rc": rc, "out": out + err, "generated": gen, "distinct": dist, "wall": time.time() - t0}
 
 
+def tlapm(module, timeout=900, stretch=3):
+    """Check the proofs of spec/<module>.tla with the TLA+ proof system in a scratch copy of the spec directory.
+    Returns dict(obligations, proved, wall); raises MachineryError if an obligation is not proved."""
+    d = scratch("tlapm-")
+    t0 = time.time()
+    try:
+        for f in os.listdir(SPEC):
+            if f.endswith(".tla"):
+                shutil.copy(os.path.join(SPEC, f), d)
+        rc, out, err = run(["tlapm", "--stretch", str(stretch), module + ".tla"], timeout=timeout, cwd=d)
+        text = out + err
+        m = re.search(r"All (\d+) obligations? proved", text)
+        if rc != 0 or not m:
+            m2 = re.search(r"(\d+)/(\d+) obligations failed", text)
+            raise MachineryError("tlapm did not prove %s: %s" % (module, m2.group(0) if m2 else text[-1500:]))
+        return {"obligations": int(m.group(1)), "proved": int(m.group(1)), "wall": round(time.time() - t0, 1)}
+    finally:
+        shutil.rmtree(d, ignore_errors=True)
+
+
 def tlc_ok(res, what):
     if res["rc"] != 0:
         if os.environ.get("VERIF_TLC_FAILLOG"):
